@@ -202,6 +202,7 @@ class Engine:
         self.native_clause_failures = []
         self.native_valid = {}
         self.float_noise = []
+        self.history_skipped = []
 
     # ------------------------------------------------------------ helpers
     def new_interp(self):
@@ -347,6 +348,45 @@ class Engine:
         pr.cmod = cmod
         return pr, B
 
+    def _warm_call(self, it, c, specs, pr, B, fv, ghosts, ctx):
+        wargs = {}
+        for nm, sp in specs.items():
+            if nm in ghosts or nm == 'self' or getattr(sp, 'computed', False):
+                continue
+            try:
+                wargs[nm] = sp.sym(B, 'w$' + nm)
+            except PyRaise as e:
+                raise Unsupported('constructing the earlier input %r raised %r' % (nm, e.exc))
+        wenv = Env(pr.cmod)
+        wenv.vars.update(pr.env.vars)
+        wenv.vars.update(wargs)
+        for r in c.requires:
+            ctx.assume(it.ops.truth_value(eval_clause(it, r, wenv)))
+        if not ctx.feasible(z3.BoolVal(True)):
+            raise PathAbort()
+        call_args = {k: wargs.get(k, v) for k, v in pr.args.items() if k not in ghosts}
+        target = fv
+        try:
+            if 'self' in call_args and hasattr(fv, 'cls') and fv.cls is not None:
+                from .values import BoundMethod
+                target = BoundMethod(call_args.pop('self'), fv)
+            extra = call_args.pop('__kwargs__', None)
+            if extra:
+                call_args.update(extra)
+            it.call(target, [], call_args)
+        except PyRaise:
+            pass
+        # side conditions, recorded external calls and events of the earlier
+        # call do not belong to the call under contract
+        ctx.side = []
+        it.ext_calls = []
+        # the precondition of the call under contract holds in the state the
+        # earlier call left behind
+        for r in c.requires:
+            ctx.assume(it.ops.truth_value(eval_clause(it, r, pr.env)))
+        if not ctx.feasible(z3.BoolVal(True)):
+            raise PathAbort()
+
     # ------------------------------------------------------------ modular
     def install_modular(self, it, current):
         """calls to functions that have a `modular=True` contract are checked
@@ -395,10 +435,17 @@ class Engine:
         self._record_function(it, c.target, fv)
         ghosts = set(self._ghosts)
 
-        def run(ctx):
+        def run(ctx, warm=False):
             pr, B = self._symbolic_run(it, c, specs, ctx)
             if not ctx.feasible(z3.BoolVal(True)):
                 raise PathAbort()
+            n_events = 0
+            if warm:
+                # history variant: the same function has been called before
+                # with other, independent arguments (same receiver, same
+                # shared objects); the contract must still hold
+                self._warm_call(it, c, specs, pr, B, fv, ghosts, ctx)
+                n_events = len(ctx.events)
             pre_env = Env(pr.cmod)
             memo = {}
             for nm, v in pr.args.items():
@@ -423,7 +470,7 @@ class Engine:
                 pr.outcome = 'raise:' + e.exc.cls.name
                 pr.result = None
                 pr.exc = e.exc
-            pr.warned = any(ev.kind == 'warn' for ev in ctx.events)
+            pr.warned = any(ev.kind == 'warn' for ev in ctx.events[n_events:])
             pr.env.vars['result'] = pr.result
             pr.env.vars['warned'] = pr.warned
             pr.side = list(ctx.side)
@@ -484,6 +531,19 @@ class Engine:
             info['paths'] = info.get('paths', 0) + len(paths)
         if c.cross_check and paths:
             self._cross_check(c, cfg, specs, paths, it)
+        opts = getattr(c, 'options', None) or {}
+        limit = 3 if self.tier == 'quick' else 12      # the variant explores (paths of one call)^2 paths
+        if paths and len(paths) <= opts.get('history_paths', limit) and opts.get('history', True) \
+                and not c.target.endswith('.__init__') \
+                and any(n != 'self' and n not in ghosts and not getattr(sp, 'computed', False)
+                        and sp.leaf_names('w$' + n) for n, sp in specs.items()):
+            try:
+                wpaths = self.explore(it, lambda ctx: run(ctx, True))
+            except (Unsupported, PathAbort) as e:
+                self.history_skipped.append('%s%s: %s' % (c.name, lab, str(e)[:80]))
+                wpaths = []
+            if wpaths:
+                self._discharge(c, cfg, base + ':after-another-call', specs, wpaths, it, goals_only=True)
 
     def _verify_lemma(self, l, cfg):
         it = self.new_interp()
@@ -519,7 +579,9 @@ class Engine:
         self._discharge(l, cfg, base, specs, paths, it)
 
     # ------------------------------------------------------------ discharge
-    def _discharge(self, c, cfg, base, specs, paths, it):
+    def _discharge(self, c, cfg, base, specs, paths, it, goals_only=False):
+        if goals_only:
+            return self._discharge_goals(c, cfg, base, specs, paths, it, True)
         # vacuity guard
         cov = Obligation(base + ':pre:cover', c.prop)
         cov.kind = 'cover'
@@ -536,6 +598,9 @@ class Engine:
         if not paths:
             return
         self._path_completeness(c, base, paths)
+        self._discharge_goals(c, cfg, base, specs, paths, it, False)
+
+    def _discharge_goals(self, c, cfg, base, specs, paths, it, warm):
         # group goals by label
         by_label = {}
         for pi, pr in enumerate(paths):
@@ -581,6 +646,7 @@ class Engine:
             ob.cfg = cfg
             ob.contract = c
             ob.specs = specs
+            ob.warm = warm
             self.obligations.append(ob)
         # div-safe: every denominator / log / sqrt argument in its domain
         side = Obligation(base + ':div-safe', c.prop,
@@ -617,6 +683,7 @@ class Engine:
         side.cfg = cfg
         side.contract = c
         side.specs = specs
+        side.warm = warm
         if nside:
             self.obligations.append(side)
 
@@ -704,7 +771,16 @@ class Engine:
         k = out.find('[')
         return json.loads(out[k:])
 
-    def job_for(self, c, specs, asg, clauses, post_state=False):
+    def job_for(self, c, specs, asg, clauses, post_state=False, warm=False):
+        isc = isinstance(c, Contract)
+        job = self._job_for(c, specs, asg, clauses, post_state)
+        if warm and isc:
+            gh = set(getattr(self, '_ghosts', ()))
+            job['warm'] = {n: sp.desc('w$' + n, asg) for n, sp in specs.items()
+                           if n != 'self' and n not in gh and not getattr(sp, 'computed', False)}
+        return job
+
+    def _job_for(self, c, specs, asg, clauses, post_state=False):
         isc = isinstance(c, Contract)
         return {'target': c.target if isc else None, 'lemma': not isc,
                 'order': list(specs),
@@ -713,10 +789,14 @@ class Engine:
                 'requires': list(c.requires if isc else c.given),
                 'clauses': list(clauses), 'post_state': post_state}
 
-    def sample_assignment(self, specs, rng):
+    def sample_assignment(self, specs, rng, warm=False):
         asg = {}
         for n, sp in specs.items():
             sp.sample(rng, n, asg)
+        if warm:
+            for n, sp in specs.items():
+                if n != 'self' and not getattr(sp, 'computed', False):
+                    sp.sample(rng, 'w$' + n, asg)
         return asg
 
     # ------------------------------------------------------------ crosscheck
